@@ -169,8 +169,15 @@ func runC19(c *fw.Ctx) {
 			c.Violate("", "n=%d i=%d: GetPathByIndex returned nil or wrong LeafIndex", n, i)
 			continue
 		}
+		nodesBefore := fmt.Sprint(p.Nodes)
 		if !util.VerifyMerklePath(ls[i], p, root) {
 			c.Violate("", "n=%d i=%d: path by index does not verify (VerifyMerklePath)", n, i)
+		}
+		// verifying does not consume the caller's path object: same index, same nodes, and it verifies again
+		if p.LeafIndex != i || fmt.Sprint(p.Nodes) != nodesBefore {
+			c.Violate("", "n=%d i=%d: verification changed the caller's path object (LeafIndex %d, nodes changed=%v)", n, i, p.LeafIndex, fmt.Sprint(p.Nodes) != nodesBefore)
+		} else if !util.VerifyMerklePath(ls[i], p, root) || !mt.VerifyPath(leaves[i], p) {
+			c.Violate("", "n=%d i=%d: the same path object does not verify a second time", n, i)
 		}
 		if !refVerify(ls[i], p.Nodes, i, root) {
 			c.Violate("", "n=%d i=%d: path by index does not verify under the independent verifier", n, i)
